@@ -333,7 +333,10 @@ func ruleL2(r *core.Run) {
 					slot := "int" + x.Op.String() + ":" + dT
 					seen[slot]++
 					key := core.Key("L2-div", r.P.Name(w.anchor), slot)
-					checkDivisor(r, ck, key, x.Pos(), b, dT, "integer "+x.Op.String())
+					xi := ins
+					checkDivisor(r, ck, key, x.Pos(), b, dT, "integer "+x.Op.String(), func(a []guard.Atom) (bool, []string) {
+						return mustPassDeep(r, w.anchor, effSite{Ins: xi, Chain: fr.Chain}, a)
+					})
 				case ssa.CallInstruction:
 					cc := x.Common()
 					name, _ := term.CalleeName(r.P, cc)
@@ -341,7 +344,10 @@ func ruleL2(r *core.Run) {
 						nDiv++
 						dT := tidy(fr.Raw(r, d))
 						key := core.Key("L2-div", r.P.Name(w.anchor), name+":"+dT)
-						checkDivisor(r, ck, key, x.Pos(), b, dT, name)
+						xi := ins
+						checkDivisor(r, ck, key, x.Pos(), b, dT, name, func(a []guard.Atom) (bool, []string) {
+							return mustPassDeep(r, w.anchor, effSite{Ins: xi, Chain: fr.Chain}, a)
+						})
 					}
 					if a, bb, ok := subOperands(name, cc); ok {
 						nSub++
@@ -383,7 +389,7 @@ func shorten(s string) string {
 	return s
 }
 
-func checkDivisor(r *core.Run, ck *guard.Checker, key string, pos token.Pos, b *ssa.BasicBlock, dT, what string) {
+func checkDivisor(r *core.Run, ck *guard.Checker, key string, pos token.Pos, b *ssa.BasicBlock, dT, what string, deep func([]guard.Atom) (bool, []string)) {
 	if reNum.MatchString(dT) && dT != "0" {
 		r.Discharge("L2-div", key, r.P.Pos(pos), "constant non-zero divisor")
 		return
@@ -392,6 +398,11 @@ func checkDivisor(r *core.Run, ck *guard.Checker, key string, pos token.Pos, b *
 	cands := []string{dT}
 	if m := regexp.MustCompile(`^\w+\((.*)\)$`).FindStringSubmatch(dT); m != nil {
 		cands = append(cands, m[1])
+	}
+	// a divisor held in a variable that a function literal captures is rendered as an unstable read: the test
+	// that guards it reads the same variable
+	if strings.Contains(dT, "~") {
+		cands = append(cands, strings.ReplaceAll(dT, "~", ""))
 	}
 	var atoms []guard.Atom
 	for _, c := range cands {
@@ -409,6 +420,13 @@ func checkDivisor(r *core.Run, ck *guard.Checker, key string, pos token.Pos, b *
 	if ok, _ := ck.MustPass(b, atoms); ok {
 		r.Discharge("L2-div", key, r.P.Pos(pos), what+" dominated by a non-zero test of the divisor")
 		return
+	}
+	// the test may sit in an enclosing frame (the function a helper or a function literal was taken out of)
+	if deep != nil {
+		if ok, _ := deep(atoms); ok {
+			r.Discharge("L2-div", key, r.P.Pos(pos), what+" dominated by a non-zero test of the divisor (in an enclosing frame)")
+			return
+		}
 	}
 	// a module parameter handed to an extracted helper as an argument is still that validated parameter
 	pbOK, pbWhy := paramBound(r, normT(anchorTerm(r, ck.Fn, dT)))
@@ -487,6 +505,48 @@ func ltChain(ck *guard.Checker, b *ssa.BasicBlock, dT string) (bool, string) {
 		x := p.A
 		if ok, _ := ck.MustPass(b, []guard.Atom{guard.Lt(guard.Exact(x), guard.Exact(dT))}); !ok {
 			continue
+		}
+		// ... or x itself exceeds a counter that starts at a non-negative constant and only grows ( for i := 0; i < x; i++ )
+		for _, blk2 := range ck.Fn.Blocks {
+			iff2, _ := lastIf(blk2)
+			if iff2 == nil {
+				continue
+			}
+			p2, _, ok2 := guard.CondPred(ck.Res, iff2.Cond)
+			if !ok2 || p2.Kind != "lt" || p2.B != x {
+				continue
+			}
+			bo2, isBo := iff2.Cond.(*ssa.BinOp)
+			if !isBo {
+				continue
+			}
+			var ctr *ssa.Phi
+			for _, cand := range []ssa.Value{bo2.X, bo2.Y} {
+				if ph, isPhi := cand.(*ssa.Phi); isPhi && ck.Res.Of(ph).String() == p2.A {
+					ctr = ph
+				}
+			}
+			if ctr == nil {
+				continue
+			}
+			growing := true
+			for _, e := range ctr.Edges {
+				if c, isC := e.(*ssa.Const); isC && c.Value != nil && constant.Sign(c.Value) >= 0 {
+					continue
+				}
+				if bo, isAdd := e.(*ssa.BinOp); isAdd && bo.Op == token.ADD && bo.X == ssa.Value(ctr) {
+					if c, isC := bo.Y.(*ssa.Const); isC && c.Value != nil && constant.Sign(c.Value) >= 0 {
+						continue
+					}
+				}
+				growing = false
+			}
+			if !growing {
+				continue
+			}
+			if ok, _ := ck.MustPass(b, []guard.Atom{guard.Lt(guard.Exact(p2.A), guard.Exact(x))}); ok {
+				return true, fmt.Sprintf("divisor %s > %s on every path, and %s > a counter that starts at a non-negative constant and only grows", dT, x, x)
+			}
 		}
 		// find a φ starting at X that only decreases and is tested > 0 on every path
 		for _, hb := range ck.Fn.Blocks {
